@@ -245,7 +245,17 @@ type QInterval struct {
 // QReadings says, per reading, whether NaN is an accepted answer
 // (informational: lets the monitor report whether an implementation sticks
 // to one reading).
-type QReadings struct{ NaN0, NaN1 bool }
+//
+// Extra0/Extra1 widen what a reading explains, for the consistency judgement
+// only: when the reading's sample does not exist at all (0-based index >=
+// total, i.e. q = 1; 1-based index -1, i.e. q*total < 1) the statement says
+// nothing under that reading, and an implementation of that reading may
+// answer NaN or clamp to the last / first sample. The clamped sample's
+// interval is listed here when it is binned.
+type QReadings struct {
+	NaN0, NaN1     bool
+	Extra0, Extra1 []QInterval
+}
 
 // QuantileRef computes what HistogramQuantile may return for a count vector.
 // With g = floor(q*total) in exact arithmetic (plus the floor of the float64
@@ -304,6 +314,24 @@ func QuantileRefR(under uint64, counts []uint64, over uint64, q float64) (nanOK 
 					rd.NaN0 = true
 				} else {
 					rd.NaN1 = true
+				}
+				if total > 0 && rdg == 0 && uint64(j) >= total && j >= 0 && over == 0 {
+					// no such sample under the 0-based reading: clamp to the last
+					for b := len(counts) - 1; b >= 0; b-- {
+						if counts[b] > 0 {
+							rd.Extra0 = append(rd.Extra0, QInterval{Bin: b, K: counts[b] - 1, C: counts[b]})
+							break
+						}
+					}
+				}
+				if total > 0 && rdg == 1 && j < 0 && under == 0 {
+					// no such sample under the 1-based reading: clamp to the first
+					for b := range counts {
+						if counts[b] > 0 {
+							rd.Extra1 = append(rd.Extra1, QInterval{Bin: b, K: 0, C: counts[b], OneBased: true})
+							break
+						}
+					}
 				}
 				continue
 			}
@@ -405,6 +433,32 @@ func HistSelfTest() error {
 	nan, ivs, _ = QuantileRef(0, []uint64{2}, 0, 1) // g=2: beyond; idx 1 -> bin 0 k=1
 	if !nan || len(ivs) != 1 || ivs[0] != (QInterval{0, 1, 2, true}) {
 		return fmt.Errorf("QuantileRef(1) no overflow = %v %v", nan, ivs)
+	}
+	_, _, _, rd := QuantileRefR(0, []uint64{2, 0}, 0, 1)
+	if !rd.NaN0 || rd.NaN1 || len(rd.Extra0) != 1 || rd.Extra0[0] != (QInterval{0, 1, 2, false}) || len(rd.Extra1) != 0 {
+		return fmt.Errorf("QuantileRefR(q=1) readings = %+v", rd)
+	}
+	_, _, _, rd = QuantileRefR(0, []uint64{0, 3}, 1, 0)
+	if rd.NaN0 || !rd.NaN1 || len(rd.Extra1) != 1 || rd.Extra1[0] != (QInterval{1, 0, 3, true}) || len(rd.Extra0) != 0 {
+		return fmt.Errorf("QuantileRefR(q=0) readings = %+v", rd)
+	}
+	_, _, _, rd = QuantileRefR(1, []uint64{2}, 1, 1)
+	if len(rd.Extra0) != 0 || len(rd.Extra1) != 0 {
+		return fmt.Errorf("QuantileRefR(q=1, over>0) readings = %+v", rd)
+	}
+	// edges beyond 2^63 and non-positive values of a logarithmic shape
+	big50 := NewLogRef(10, 1, 50)
+	if e := big50.Edge(50); e != 1e50 {
+		return fmt.Errorf("10^50 edge = %v", e)
+	}
+	for _, t := range []struct {
+		x         float64
+		slot, alt int
+	}{{0, -1, -1}, {math.Copysign(0, -1), -1, -1}, {-3, -1, -1}, {-1e300, -1, -1}, {5e-324, -1, -1}, {3e49, 49, 49}, {1e50, 50, 49}, {2e50, 50, 50}, {1e19, 19, 18}, {9.3e18, 18, 18}} {
+		s, a, _ := big50.Slot(t.x)
+		if s != t.slot || a != t.alt {
+			return fmt.Errorf("log50 slot(%v)=(%d,%d) want (%d,%d)", t.x, s, a, t.slot, t.alt)
+		}
 	}
 	nan, ivs, _ = QuantileRef(0, nil, 0, 0.3)
 	if !nan || len(ivs) != 0 {
